@@ -1,10 +1,17 @@
 package main
 
 import (
+	"bufio"
+	"encoding/base64"
 	"encoding/json"
+	"encoding/pem"
 	"fmt"
+	"io"
 	"os"
+	"os/exec"
 	"os/signal"
+	"runtime"
+	"strings"
 	"sync"
 	"sync/atomic"
 	"syscall"
@@ -14,7 +21,45 @@ import (
 	"github.com/hashicorp/go-plugin/verifharness/vp"
 )
 
+// impostor: run the real plugin as a child and announce a different certificate than the one it
+// serves with.
+func impostor() {
+	// the child must not outlive this wrapper (it would keep the host's stderr pipe open)
+	runtime.LockOSThread()
+	cmd := exec.Command(os.Args[0])
+	cmd.SysProcAttr = &syscall.SysProcAttr{Pdeathsig: syscall.SIGKILL}
+	for _, e := range os.Environ() {
+		if !strings.HasPrefix(e, "VPLUGIN_IMPOSTOR=") {
+			cmd.Env = append(cmd.Env, e)
+		}
+	}
+	cmd.Stderr = os.Stderr
+	stdout, _ := cmd.StdoutPipe()
+	if err := cmd.Start(); err != nil {
+		os.Exit(70)
+	}
+	rd := bufio.NewReader(stdout)
+	line, _ := rd.ReadString('\n')
+	parts := strings.Split(strings.TrimRight(line, "\n"), "|")
+	if len(parts) >= 6 {
+		certPEM, _, _ := vp.StaticTLS()
+		blk, _ := pem.Decode([]byte(certPEM))
+		parts[5] = base64.RawStdEncoding.EncodeToString(blk.Bytes)
+	}
+	fmt.Println(strings.Join(parts, "|"))
+	os.Stdout.Sync()
+	go io.Copy(os.Stdout, rd)
+	ch := make(chan os.Signal, 1)
+	signal.Notify(ch, syscall.SIGTERM)
+	go func() { <-ch; cmd.Process.Kill() }()
+	cmd.Wait()
+	os.Exit(0)
+}
+
 func run() {
+	if os.Getenv("VPLUGIN_IMPOSTOR") != "" {
+		impostor()
+	}
 	var pc vp.PluginCfg
 	raw := os.Getenv(vp.CfgEnv)
 	if raw == "" {
